@@ -167,7 +167,10 @@ void do_op(W& w, const POp& p, int tid, RoundState& rs, std::vector<std::future<
         }
         if constexpr (MTraits<M>::timed) {
             if (p.op == TRY_FOR) use(w.try_lock_for(dur));
-            if (p.op == TRY_UNTIL) use(w.try_lock_until(std::chrono::steady_clock::now() + dur));
+            if (p.op == TRY_UNTIL) {  // the deadline may be given on any clock
+                if (p.id % 2) use(w.try_lock_until(std::chrono::system_clock::now() + dur));
+                else use(w.try_lock_until(std::chrono::steady_clock::now() + dur));
+            }
         }
     }
     if constexpr (FAM == F_GUARDED || FAM == F_GUARDED_OPT) {
@@ -260,7 +263,10 @@ void do_op(W& w, const POp& p, int tid, RoundState& rs, std::vector<std::future<
         }
         if constexpr (MTraits<M>::timed) {
             if (p.op == TRY_SH_FOR) use(w.try_lock_shared_for(dur));
-            if (p.op == TRY_SH_UNTIL) use(w.try_lock_shared_until(std::chrono::steady_clock::now() + dur));
+            if (p.op == TRY_SH_UNTIL) {
+                if (p.id % 2) use(w.try_lock_shared_until(std::chrono::system_clock::now() + dur));
+                else use(w.try_lock_shared_until(std::chrono::steady_clock::now() + dur));
+            }
         }
     }
     if constexpr (FAM == F_DEFERRED) {
